@@ -47,7 +47,13 @@ def sym_dm(M, nb, name="g"):
     for a in range(nb):
         for b in range(a, nb):
             arr[a, b] = arr[b, a] = M.real("%s_%d_%d" % (name, a, b))
-    return M.array(arr)
+    out = M.array(arr)
+    if M.kind == "float" and nb > 1:
+        # natively: symmetric as the library itself demands (np.allclose), not bit-for-bit -- what a
+        # density matrix computed as C n C^T looks like
+        out = out.copy()
+        out[0, 1] += 3e-13 * (1.0 + abs(out[0, 1]))
+    return out
 
 
 def D(M, dm, p1, p2, n):
@@ -187,7 +193,9 @@ class DensityThreshold(DensityBase):
             with self.patched(dens, stub, (dens, "evaluate_density_using_evaluated_orbs", from_orbs)):
                 return dens.evaluate_density(dm, basis, points, transform=transform, threshold=M.scalar(thr))
 
+        fr = Frame(dm=dm, points=points, rho=rho)
         paths = M.paths(body)
+        fr.check(M, "density/all-paths")
         stub.check_calls(M, "density", basis, points, transform)
         M.true("density/pre@from_orbs", len(seen) == 1 and seen[0][0] is dm, "density matrix forwarded")
         srho, sthr = M.to_spec(rho), M.to_spec(thr) if not M.symbolic else thr
@@ -351,7 +359,9 @@ class KineticDensity(DensityBase):
                     return dens.evaluate_posdef_kinetic_energy_density(dm, basis, points, transform=transform, deriv_type="direct",
                                                                        threshold=M.scalar(thr))
 
+            fr = Frame(dm=dm, points=points, **{"tau%d" % i: tau[e] for i, e in enumerate(E3)})
             paths = M.paths(body)
+            fr.check(M, "posdef_ked/all-paths")
             M.true("posdef_ked/pre@reduced_dm", sorted(c[0] for c in calls) == sorted(E3) and all(c[0] == c[1] and c[2] is dm and c[3] is basis
                    and c[4] is points and c[5] is transform and c[6] == "direct" for c in calls),
                    "one call per axis with equal first-derivative orders; density matrix, basis, points, transform, back-end forwarded")
